@@ -173,6 +173,10 @@ def run(ctx):
     with ctx.rule("C10.REDISCOVER", "match re-discovery is confined to the reported range (shared with C09.REDISCOVER)", floor=8,
                   kind="GUARD/FLOW") as r:
         c09.rediscover_rule(ctx, r)
+    with ctx.rule("C10.ANCHORS", "the printers' re-search of a line inside its buffer sees the same line anchors as the searcher's "
+                  "isolated line: the engine is given the configured terminator (shared with C11.ENGINE)", floor=1, kind="WIRE") as r:
+        from . import c11
+        c11.engine_rule(ctx, r)
     with ctx.rule("C10.MLPRED", "printers and searcher decide 'multi-line' by the same matcher-aware predicate", floor=5, kind="PARITY") as r:
         RAW = "grep_searcher::searcher::Searcher::multi_line"
         MLWM = "grep_searcher::searcher::Searcher::multi_line_with_matcher"
